@@ -231,7 +231,11 @@ def pricing_grid():
                              ("7stake", "900000000000000000", "900000000000000000", 2),
                              ("30stake", "100000000000000000", "500000000000000000", 1),
                              ("0.5stake", "500000000000000000", "900000000000000000", 1),
-                             ("5stake", "999999999999999999", "1", 2)]:
+                             ("5stake", "999999999999999999", "1", 2),
+                             # 18-decimal discounts for which (p x dT) x dV and p x (dT x dV) truncate differently
+                             ("30stake", "300000000000000000", "333333333333333333", 1),
+                             ("30stake", "700000000000000000", "142857142857142857", 1),
+                             ("30stake", "300000000000000000", "999999999999999999", 2)]:
         for win in (3, 6):          # the time window closes after `win` blocks of 5 s
             ops = [genesis(), f"fund acct={O1} amt=1000000", f"fund acct={C1} amt=100000",
                    f"define name=svc author={O1} schema=ok",
@@ -254,6 +258,20 @@ def pricing_grid():
             ops.append(f"respond req={req_id(0xC07, k, k, 0)} prov={P1} code=200 out=valid")
         ops.append("endblock dt=5000000000")
         out.append((f"grid:pricing:two-windows:{base}", ops))
+    # amounts beyond 64 bits: a fee above 2^63 issued, answered (tax and earnings), expired (refund), withdrawn
+    huge, dep, rich = 10 ** 19 + 7, 2 * 10 ** 21 + 1400, 10 ** 24
+    ops = [genesis(), f"fund acct={O1} amt={rich}", f"fund acct={C1} amt={rich}",
+           f"define name=svc author={O1} schema=ok",
+           f"bind svc=svc prov={P1} owner={O1} dep={dep} price={huge}stake promT=- promV=- qos=1",
+           f"bind svc=svc prov={P2} owner={O1} dep={dep} price={huge}stake promT=- promV=- qos=1",
+           f"call tx={tx(0xC07)} idx=0 svc=svc provs={P1},{P2} cons={C1} cap={huge} timeout=2 super=0 rep=1 freq=2 total=2 input=ok",
+           "endblock dt=5000000000",
+           f"respond req={req_id(0xC07, 1, 1, 0)} prov={P1} code=200 out=valid",
+           "endblock dt=5000000000", "endblock dt=5000000000",
+           f"respond req={req_id(0xC07, 2, 3, 1)} prov={P2} code=200 out=malformed",
+           "endblock dt=5000000000", "endblock dt=5000000000",
+           f"withdraw owner={O1} prov=-", "endblock dt=5000000000"]
+    out.append(("grid:pricing:beyond-64-bits", ops))
     return out
 
 
